@@ -61,11 +61,13 @@ class AugmentedFlowProposal(FlowProposal):
         auxiliary parameters.
         """
         super().set_rescaling()
-        # Cannot use super().rescale because rescale is changed in
-        # set rescaling.
-        self._base_rescale = self.rescale
+        # Use the methods of the parent class rather than the attributes of
+        # the instance: if the rescaling is set again (e.g. when resuming a
+        # proposal that was not fully initialised) the attributes already
+        # point to the augmented methods and these would call themselves.
+        self._base_rescale = super().rescale
         self.rescale = self._augmented_rescale
-        self._base_inverse_rescale = self.inverse_rescale
+        self._base_inverse_rescale = super().inverse_rescale
         self.inverse_rescale = self._augmented_inverse_rescale
         self.augment_parameters = [f"e_{i}" for i in range(self.augment_dims)]
         self.parameters += self.augment_parameters
